@@ -422,21 +422,32 @@ func isRolloutPlanChanged(rollout *v1beta1.Rollout) bool {
 	return status.GetSubStatus().RolloutHash != "" && status.GetSubStatus().RolloutHash != rollout.Annotations[util.RolloutHashAnnotation]
 }
 
+// isWorkloadRolledBack: the workload is back at the revision this release started from. workload.IsInRollback alone
+// misses a rollback the native controller has already completed (every pod is at the stable revision again by the
+// time the rollout controller looks), which was then taken for a new release of the stable revision.
+func isWorkloadRolledBack(rollout *v1beta1.Rollout, workload *util.Workload) bool {
+	if workload.IsInRollback {
+		return true
+	}
+	sub := rollout.Status.GetSubStatus()
+	return sub != nil && sub.StableRevision != "" && workload.CanaryRevision == sub.StableRevision
+}
+
 func isContinuousRelease(rollout *v1beta1.Rollout, workload *util.Workload) bool {
 	status := &rollout.Status
-	return status.GetCanaryRevision() != "" && workload.CanaryRevision != status.GetCanaryRevision() && !workload.IsInRollback
+	return status.GetCanaryRevision() != "" && workload.CanaryRevision != status.GetCanaryRevision() && !isWorkloadRolledBack(rollout, workload)
 }
 
 func isRollingBackDirectly(rollout *v1beta1.Rollout, workload *util.Workload) bool {
 	status := &rollout.Status
 	inBatch := util.IsRollbackInBatchPolicy(rollout, workload.Labels)
-	return workload.IsInRollback && workload.CanaryRevision != status.GetCanaryRevision() && !inBatch
+	return isWorkloadRolledBack(rollout, workload) && workload.CanaryRevision != status.GetCanaryRevision() && !inBatch
 }
 
 func isRollingBackInBatches(rollout *v1beta1.Rollout, workload *util.Workload) bool {
 	status := &rollout.Status
 	inBatch := util.IsRollbackInBatchPolicy(rollout, workload.Labels)
-	return workload.IsInRollback && workload.CanaryRevision != status.GetCanaryRevision() && inBatch
+	return isWorkloadRolledBack(rollout, workload) && workload.CanaryRevision != status.GetCanaryRevision() && inBatch
 }
 
 // 1. restore network api(ingress/gatewayAPI/Istio) configuration, potentially route all traffic to stable pods
